@@ -84,15 +84,19 @@ class P(vlib.Prop):
             "expansions resolved by confmap.Resolver into a scalar field, a nested field, a map value, a slice element, inline "
             "text and a pointer field. Use: real HTTP round trips (client headers incl. -bin names and Host, server response "
             "headers), a real gRPC unary and stream call through ClientConfig.ToClientConn with 6 key styles x all secrets, TLS key "
-            "pair loading; what arrives is compared with the configured secret. Oracle-only paths: sigs.k8s.io/yaml, gob, xml, text/template, log, slog, json.MarshalIndent, "
+            "pair loading; what arrives is compared with the configured secret; whole headers maps (10 key forms, rotated distinct secrets, "
+            "caller-set headers / metadata, Host configured / empty / absent) as CHttpClient / CHttpServer / CGrpc cases against the "
+            "map-to-wire model, and all 144 combinations of cert/key file and PEM sources as CTls cases. Oracle-only paths: sigs.k8s.io/yaml, gob, xml, text/template, log, slog, json.MarshalIndent, "
             "Sprintf with extra/indexed/star operands, sugared logger, console encoder, real confighttp/configgrpc/configtls structs.")
     trusted_base = [
         "Coq 8.16.1 kernel + vm_compute (coqc); no axioms (Print Assumptions: closed under the global context)",
-        "translator T1 (tools/go2coq, kinds strmethod + methodset): reads the bodies of String/GoString/MarshalText/MarshalBinary and the method set of *String from the current source",
+        "translator T1 (tools/go2coq, kinds strmethod + methodset + func): reads the bodies of String/GoString/MarshalText/MarshalBinary, the method set of *String and configtls' presence predicates hasCert/hasKey/hasCA/has*Pem from the current source",
+        "hand-written model C14/UseModel.v of headerRoundTripper.RoundTrip, responseHeadersHandler, addHeadersIfAbsent (with net/http Header.Set / CanonicalMIMEHeaderKey and grpc metadata semantics) and configtls.loadCertificate, tied by real HTTP / gRPC round trips and the TLS decision table",
         "hand-written model C14/Model.v of the dispatch rules of fmt, encoding/json, goyaml.v3, the confmap encoder, zap.Any and the confmap squash hook, tied by the correspondence run (every rendering compared as a string inside Coq)",
         "Go harnesses harness/C14/*.go (+ shape.go.tmpl) and go test -overlay; Go toolchain and standard library",
     ]
     assumptions = [
+        "configured header keys are distinct after canonicalisation (HTTP) / lower-casing (gRPC); otherwise Go's map iteration order decides which value is sent",
         "the consumers enumerated in Model.consumer are the code that needs the secret (confighttp client/server headers, configgrpc metadata, configtls key pair)",
         "the renderers enumerated in Model.path are the rendering paths (a renderer outside the enumeration is outside the theorems)",
         "fmt/json/yaml/zap consult a value only through the interfaces modelled (Formatter, GoStringer, Stringer, error, TextMarshaler; json.Marshaler / yaml.Marshaler / zapcore.ObjectMarshaler are absent from the method set: instance obligation opaque_method_set_is_expected)",
@@ -101,6 +105,7 @@ class P(vlib.Prop):
 
     def translate(self, ctx):
         vlib.go2coq(ctx, "config/configopaque", os.path.join(HERE, "t1_spec.json"), "C14Opaque")
+        vlib.go2coq(ctx, "config/configtls", os.path.join(HERE, "t1_tls_spec.json"), "C14Tls")
 
     def match_known(self, finding, failure):
         sig = finding.get("signature", {})
